@@ -535,6 +535,163 @@ def check_cart_paths(kind, tier, part, res):
         shutil.rmtree(d, ignore_errors=True)
 
 
+# ---------------------------------------------------------------- token counting (stats): content independence
+COUNT_TEMPLATES = [b'x=%s\n', b'f(%s)\n', b'f %s\n', b't[%s]=1\n', b'x=%s..%s\n', b'x={%s,%s}\n', b'?%s\n',
+                   b'if (a) x=%s\n', b'function f() return %s end\n', b'x=%s -- c\ny=2\n']
+
+
+def count_values():
+    vals = sorted(reflex.KEYWORDS) + [s_ for s_ in reflex.SYMBOLS] + [b'a', b'', b'1', b'1e5', b'0x1e', b' ', b'end ',
+                                                                  b'-- c', b'//', b'--[[', b'x=1', b'\x80']
+    return vals
+
+
+def string_spellings(v):
+    out = []
+    if b'"' not in v and b'\\' not in v and b'\n' not in v:
+        out.append(b'"' + v + b'"')
+    if b"'" not in v and b'\\' not in v and b'\n' not in v:
+        out.append(b"'" + v + b"'")
+    if b']]' not in v and not v.endswith(b']'):
+        out.append(b'[[' + v + b']]')
+    if b']=]' not in v and not v.endswith(b']'):
+        out.append(b'[=[' + v + b']=]')
+    out.append(b'"' + b''.join(b'\\%03d' % c for c in v) + b'"')
+    return out
+
+
+def token_count(src):
+    from pico8.lua import lua
+    return lua.Lua.from_lines([src], version=core.lua_version(src)).get_token_count()
+
+
+def check_counts(part, nparts, res):
+    """PICO-8 counts a string literal as one token whatever it contains, a name as one token whatever its spelling,
+    and does not count comments: the count of a program may not change when only the CONTENT of a string / name /
+    comment changes (kind-aware counting). Also: `p8tool stats` reports the library's count."""
+    n = 0
+    for tpl in COUNT_TEMPLATES:
+        k = tpl.count(b'%s')
+        try:
+            base = token_count(tpl % ((b'"s"',) * k))
+        except Exception:
+            continue
+        for v in count_values():
+            for sp in string_spellings(v):
+                n += 1
+                if n % nparts != part:
+                    continue
+                src = tpl % ((sp,) * k)
+                res.evaluations += 1
+                try:
+                    shape = [(t.kind, None if t.kind == 'string' else t.text) for t in reflex.significant(reflex.lex(src))]
+                    bshape = [(t.kind, None if t.kind == 'string' else t.text)
+                              for t in reflex.significant(reflex.lex(tpl % ((b'"s"',) * k)))]
+                except reflex.Reject:
+                    continue
+                if shape != bshape:
+                    continue        # the spelling fused with its neighbours (e.g. 't[' + '[[..]]'): another program
+                res.nontriv(('count', src))
+                case = {'src': src, 'count': 'string', 'template': tpl}
+                try:
+                    c = token_count(src)
+                except Exception as e:
+                    res.count('count_program_not_parsed')
+                    continue
+                if c != base:
+                    res.violation('C07|token-count|string-content',
+                                  'get_token_count(%r) = %d, but the same program with the string "s" counts %d: a string '
+                                  'literal is one token whatever it holds' % (src, c, base), case)
+                else:
+                    res.outcome(('count', base))
+    # names: spellings containing keywords / digits / exponent look-alikes
+    for tpl in (b'%s=1\n', b'x.%s=1\n', b'function %s() end\n', b'local %s\n', b'goto %s\n', b'x=%s+%s\n'):
+        k = tpl.count(b'%s')
+        try:
+            base = token_count(tpl % ((b'n',) * k))
+        except Exception:
+            continue
+        for nm in [kw + b'x' for kw in sorted(reflex.KEYWORDS)] + [b'e', b'e5', b'x1e5', b'_', b'endend', b'a\x80', b'\xff']:
+            src = tpl % ((nm,) * k)
+            res.evaluations += 1
+            case = {'src': src, 'count': 'name', 'template': tpl}
+            try:
+                c = token_count(src)
+            except Exception:
+                continue
+            if c != base:
+                res.violation('C07|token-count|name-spelling', 'get_token_count(%r) = %d, with the name n it is %d' % (src, c, base), case)
+    # comments and layout do not count
+    for body in (b'x=1', b'f(a,b)', b'if a then b=1 end'):
+        try:
+            base = token_count(body + b'\n')
+        except Exception:
+            continue
+        for com in [b'-- ' + v for v in count_values() if b'\n' not in v] + [b'--[[ end local ) ]]', b'// end', b'--[=[\nend\n]=]']:
+            for src in (body + b' ' + com + b'\n', com + b'\n' + body + b'\n', body + b'\n' + com + b'\n\n  \n'):
+                res.evaluations += 1
+                case = {'src': src, 'count': 'comment'}
+                try:
+                    reflex.lex(src)
+                    c = token_count(src)
+                except Exception:
+                    continue
+                if c != base:
+                    res.violation('C07|token-count|comment', 'get_token_count(%r) = %d, without the comment it is %d' % (src, c, base), case)
+
+
+def check_stats_cli(res):
+    """`p8tool stats` (plain and --csv) reports version, line, char and token counts of the library for real carts."""
+    import io
+    import os
+    import shutil
+    import tempfile
+    from pico8 import tool, util
+    from pico8.game import file as p8file
+    d = tempfile.mkdtemp(prefix='c07stats_')
+    srcs = [b'-- title\n-- by me\nx="end" y=":" f(".")\n', b'x=1\n', b'a=[[local]] b={1,2;3}\nfunction f() end\n',
+            b'-- t\nx=1e5 y=0x1e\n?x\n', b'x=m..":"..s\n']
+    old_stream, old_verb = util._write_stream, util._verbosity
+    try:
+        for i, src in enumerate(srcs):
+            pth = os.path.join(d, 's%d.p8' % i)
+            write_p8(pth, src)
+            g = p8file.from_file(pth)
+            want_tokens = g.lua.get_token_count()
+            ref_sig = len(reflex.significant(reflex.lex(src)))
+            for flags in ([], ['--csv']):
+                buf = io.StringIO()
+                util._write_stream = buf
+                util.set_verbosity(util.VERBOSITY_NORMAL)
+                import sys
+                old_stdout = sys.stdout
+                sys.stdout = buf
+                try:
+                    rcode = tool.main(['stats'] + flags + [pth])
+                except BaseException as e:
+                    rcode = e
+                finally:
+                    sys.stdout = old_stdout
+                    util._write_stream = old_stream
+                    util.set_verbosity(old_verb)
+                res.evaluations += 1
+                text = buf.getvalue()
+                case = {'src': src, 'count': 'stats-cli'}
+                if flags:
+                    rows = [r for r in text.strip().splitlines()]
+                    ok = len(rows) == 2 and rows[1].split(',')[5:6] == [str(want_tokens)]
+                else:
+                    ok = ('- tokens: %d\n' % want_tokens) in text
+                if rcode != 0 or not ok:
+                    res.violation('C07|stats-cli|%s' % ('csv' if flags else 'plain'),
+                                  '`p8tool stats %s` on a cart holding %r prints %r; the library counts %d tokens' % (
+                                      ' '.join(flags), src, text[-200:], want_tokens), case)
+                if want_tokens > ref_sig * 2:
+                    res.violation('C07|token-count|absurd', 'count %d for %d significant tokens' % (want_tokens, ref_sig), case)
+    finally:
+        shutil.rmtree(d, ignore_errors=True)
+
+
 NUMBER_PARTS = 16
 
 
@@ -551,6 +708,7 @@ def shards(tier, seed):
     items += [('kw',), ('multi',), ('esc',)]
     items += [('numbers', tier, k) for k in range(NUMBER_PARTS)]
     items += [('cart', kind, tier, k) for kind in ('p8', 'png') for k in range(CART_PARTS)]
+    items += [('count', k, 4) for k in range(4)]
     return items
 
 
@@ -585,6 +743,11 @@ def run_shard(item):
         for s in escapes_forms():
             compare(s, res, 'esc')
         res.sample({'src': escapes_forms()[40]})
+    elif kind == 'count':
+        check_counts(item[1], item[2], res)
+        if item[1] == 0:
+            check_stats_cli(res)
+            res.sample({'family': 'count', 'pair': [b'x="s"\n', b'x="end"\n'], 'rule': 'a string literal counts the same whatever it holds'})
     elif kind == 'cart':
         check_cart_paths(item[1], item[2], item[3], res)
         if item[3] == 0:
@@ -603,6 +766,11 @@ def replay(case):
     res = ShardResult()
     if case.get('via'):
         return replay_via(case)
+    if case.get('count'):
+        for part in range(4):
+            check_counts(part, 4, res)
+        check_stats_cli(res)
+        return [(s_, v[0]) for s_, v in res.violations.items()]
     for fam in ('chars', 'pairs', 'triples', 'kw', 'multi', 'esc', 'numbers'):
         r = ShardResult()
         compare(case['src'], r, fam)
